@@ -8,6 +8,7 @@
 //!                          (returns `ok <hex> ==> <dump>`); spec: `-` empty bytes, `none` absent, `*` empty
 //!                          list, `+` between byte strings, `;` between messages, `/` `,` `:` between fields
 //! `rt <kind> …`            encode with the library's encoder, then `KademliaMessage::from_bytes`
+//! `idout` / `idin` / `idrt`  the real `Identify` protocol object (see c19_identify.rs)
 //! Every answer ends with ` alloc=<peak bytes allocated while decoding>` when the harness installed
 //! its counting allocator.
 
@@ -15,11 +16,14 @@ use crate::verif::{alloc_begin, alloc_peak_since, hex, unhex, VerifBox};
 
 use prost::Message;
 
-pub struct DecoderBox;
+pub struct DecoderBox {
+    /// The rig on which real `Identify` event loops run (created on first use).
+    identify: Option<crate::protocol::libp2p::identify::verif_c19::Rig>,
+}
 
 impl DecoderBox {
     pub fn new() -> Self {
-        Self
+        Self { identify: None }
     }
 }
 
@@ -135,6 +139,21 @@ impl VerifBox for DecoderBox {
                 let base = alloc_begin();
                 let out = remote_key(&bytes);
                 format!("{} alloc={}", out, alloc_peak_since(base))
+            }
+            [op @ ("idout" | "idin" | "idrt"), rest @ ..] => {
+                let rig = self
+                    .identify
+                    .get_or_insert_with(crate::protocol::libp2p::identify::verif_c19::Rig::new);
+                let base = alloc_begin();
+                let out = match *op {
+                    "idout" => rig.outbound(rest),
+                    "idin" => rig.inbound(rest),
+                    _ => rig.roundtrip(rest),
+                };
+                match out {
+                    Some(out) => format!("{} alloc={}", out, alloc_peak_since(base)),
+                    None => "bad-op".into(),
+                }
             }
             ["rt", rest @ ..] => match crate::protocol::libp2p::kademlia::verif_c19::encode(rest) {
                 Some(b) => format!(
